@@ -81,6 +81,7 @@ fn check(b: &[u8]) {
 // @bound ASCII sources of 5 bytes over {a, 9, space, LF, CR, .}: every region [a, e) on character boundaries, spans computed as the lexer reports them
 // @assume spans are (line = LF count, column = per-character increment of the lexer) of the region's ends, which is what C09 establishes for token spans
 // @timeout 1800
+// @mem 14
 #[kani::proof]
 #[kani::unwind(8)]
 #[kani::stub(std::hash::RandomState::new, stub_random_state)]
@@ -99,6 +100,7 @@ fn c11_source_slice_ascii() {
 // @fns FormatContext::new (line_offsets), FormatContext::source_slice
 // @bound sources "U+00E9 c c c" and "U+5B57 c c" with c over {a, 9, space, LF, CR, .}: regions behind the multi-byte character
 // @timeout 1800
+// @mem 14
 #[kani::proof]
 #[kani::unwind(8)]
 #[kani::stub(std::hash::RandomState::new, stub_random_state)]
